@@ -97,6 +97,7 @@ type runOut struct {
 	dump    string
 	raw     string
 	note    string
+	base    int64    // absolute time of the log's origin in this run
 	part    [][]Call // the partition really used (a cut splits the lifetime it falls into)
 }
 
@@ -277,6 +278,7 @@ func (x *runner) run(l *Log, v *Variant) (*runOut, error) {
 		return nil, fmt.Errorf("%s: partition covers %d of %d requests", v.ID, total, n)
 	}
 	base := x.baseOf(v.Shift)
+	out.base = base
 	s, err := smx.Open(v.Engine, l.Policy)
 	if err != nil {
 		return nil, err
@@ -301,6 +303,11 @@ func (x *runner) run(l *Log, v *Variant) (*runOut, error) {
 		p1, p2 := splitPart(v.Part, v.Cut)
 		x.applyPart(s, l, 0, v.Cut, p1, false, base, &next, out)
 		bi := s.Store.Backup(1, uint64(v.Cut)+1)
+		for try := 0; bi == nil && try < 200; try++ {
+			// Backup refuses while the store's backup goroutine is not yet waiting for a request
+			time.Sleep(2 * time.Millisecond)
+			bi = s.Store.Backup(1, uint64(v.Cut)+1)
+		}
 		if bi == nil {
 			return nil, fmt.Errorf("backup refused")
 		}
@@ -465,8 +472,9 @@ func dump(s *smx.SM, keys [][]byte) string {
 }
 
 // localExpireSweep: what the local-deletion policy's background goroutine does on its own clock.
-// Needs the verif hook rockredis.VerifLocalExpireOnce; without it the sweep is unavailable.
-var localExpireSweep = func(s *smx.SM) error { return fmt.Errorf("no sweep hook") }
-var haveSweep = false
+// (verif hook rockredis.VerifLocalExpireOnce)
+func localExpireSweep(s *smx.SM) error { return s.Store.VerifLocalExpireOnce() }
+
+const haveSweep = true
 
 var _ = time.Now
